@@ -8,9 +8,9 @@ a precedence-climbing reference parser of the operator core.  TLC (spec/MC_Synta
 enumerates the tree universes, checks the laws on the specification (same tree modulo
 parentheses, texts differ only by parentheses, span nesting, RefParse(print) = tree,
 every minimal parenthesis is required, print(RefParse(toks)) = toks) and emits one case
-per printed text; in mode "mut" it emits the minimal texts with one token deleted /
-duplicated / swapped / one required pair of parentheses removed, decided by RefParse
-where the sequence stays inside the operator core.
+per printed text, one per core text with one pair of its parentheses removed, and - for
+a seeded sample of the trees - the minimal text with one token deleted / duplicated /
+swapped, decided by RefParse where the sequence stays inside the operator core.
 
 Binding: every case is laid out as text (separators drawn from VERIF_SEED subject to
 NeedsSeparator), parsed by the real Lexer + Parser::parse_root_expr through the harness
@@ -19,8 +19,11 @@ child inside parent; accept/reject against the reference parser; every reported 
 error must carry the span of a token of the input or of the end of input
 (spec/Trace_Diag.tla, evaluated by TLC on a sample of the recorded events and in Python
 on all of them)."""
+import concurrent.futures
+import hashlib
 import json
 import os
+import shutil
 import time
 
 import vlib
@@ -28,256 +31,329 @@ import syntax_util as su
 from vlib import Check, run_tlc, tlc_must_pass, run_cases
 
 PROP = "C15"
-BATCH = 30000
+CHUNK = 12000          # spec cases per work item
+PROCS = 4
 GREEDY = {"local", "if", "func", "error", "assert", "import"}
+PREFIX = '<<"CASE", '
 
 
 def greedy_cut(n):
     """Does the parser's tree use a form that must extend as far right as possible
     (local/if/function/error/assert/import) as the left operand of a binary operator /
-    `in super` or as the target of a postfix form without parentheses around it?"""
+    of "in super" or as the target of a postfix form without parentheses around it?"""
     k = n["n"]
-    if k in ("binary", "insuper", "field", "index", "slice", "call", "objext") and n["c"][0]["n"] in GREEDY:
-        return True
-    if k == "binary":
-        # ... or somewhere on the right edge of the left operand
+    if k in ("binary", "insuper", "field", "index", "slice", "call", "objext"):
         x = n["c"][0]
-        while x["n"] in ("binary", "unary"):
-            x = x["c"][-1]
+        while True:
             if x["n"] in GREEDY:
                 return True
+            if x["n"] in ("binary", "unary") and k in ("binary", "insuper"):
+                x = x["c"][-1]      # ... or somewhere on the right edge of the left operand
+            else:
+                break
     return any(greedy_cut(c) for c in n["c"])
 
 
-class Run:
-    def __init__(self, chk, tier, seed):
+def decode(line):
+    lit = line[len(PREFIX):].rstrip()
+    if lit.endswith(">>"):
+        lit = lit[:-2]
+    return json.loads(json.loads(lit))
+
+
+def variants(c, seed, nvar):
+    toks, sep = c["toks"], c["sep"]
+    out = [su.layout(toks, sep, None)]
+    key = "\x1f".join(toks)
+    for v in range(nvar):
+        out.append(su.layout(toks, sep, vlib.rng(seed, f"c15:{v}:{key}")))
+    seen = set()
+    for text, spans in out:
+        if text not in seen:
+            seen.add(text)
+            yield text, spans
+
+
+def work(lines, seed, nvar, wid, flip):
+    """Decodes one chunk of CASE lines, lays the cases out, parses them with the real
+    implementation and compares.  Returns plain data to be merged by the parent."""
+    out = {"classes": {}, "styles": {}, "kinds": set(), "violations": [], "events": [], "bad_events": [],
+           "n_events": 0, "pos": [0, 0], "replayed": 0, "samples": {}, "digests": set(), "evaluations": 0,
+           "tool_error": None}
+
+    def cls(name):
+        out["classes"][name] = out["classes"].get(name, 0) + 1
+
+    def disagree(sig, what, payload):
+        out["violations"].append((sig, what, payload))
+
+    spec_cases = [decode(l) for l in lines]
+    cases, meta = [], []
+    for c in spec_cases:
+        label = c.get("st") or c.get("kind")
+        c["half"] = "trees" if label in ("min", "red", "unparen") else "mut"
+        out["styles"][label] = out["styles"].get(label, 0) + 1
+        if c["exp"]["d"] == "accept":
+            su.kinds_of(c["exp"]["tree"], out["kinds"])
+            c["nontrivial"] = su.depth(c["exp"]["tree"]) >= 3
+        else:
+            c["nontrivial"] = len(c["toks"]) >= 2
+        full = label not in ("min", "red")   # printed trees: canonical text (fast path); else structured tree
+        for text, spans in variants(c, seed, nvar):
+            cases.append({"k": "parse", "src": text, "full": full})
+            meta.append((c, spans, label))
+    if not cases:
+        return out
+    name = f"c15_w{wid}"
+    results = run_cases(cases, name, timeout_ms=10000, workers=4)
+    out["replayed"] = len(cases)
+    # fast path: the canonical text of the parser's tree equals the specification's
+    redo = [i for i, ((c, spans, label), r) in enumerate(zip(meta, results))
+            if "tree" in r and r["tree"] != su.canon(c["exp"]["tree"], spans)]
+    if flip:
+        redo = sorted(set(redo) | {0})
+    if redo:
+        again = run_cases([dict(cases[i], full=True) for i in redo], name + "f", timeout_ms=10000, workers=4)
+        for i, r in zip(redo, again):
+            results[i] = r
+    ev_rng = vlib.rng(seed, f"c15-ev:{hashlib.sha1(lines[0].encode()).hexdigest()}")
+    for idx, (case, (c, spans, label), r) in enumerate(zip(cases, meta, results)):
+        src = case["src"]
+        q = json.dumps(src)
+        exp = c["exp"]
+        d = exp["d"]
+        half = c["half"]
+        fast_ok = "tree" in r
+        etree = su.expected_tree(exp["tree"], spans) if d == "accept" and not fast_ok else None
+        if flip and idx == 0 and etree is not None:
+            etree["e"] += 1          # binding demonstration: falsify one expected span
+        out["evaluations"] += 1
+        if c["nontrivial"]:
+            out["digests"].add(hashlib.blake2b(src.encode(), digest_size=8).digest())
+        payload = {"k": "parse", "src": src, "half": half, "case": label, "expected": d,
+                   "expected_tree": su.canon(exp["tree"], spans) if d == "accept" else None,
+                   "reject_at_token": exp.get("at")}
+        base = {"kind": "syntax", "half": half, "case": label}
+        if vlib.is_crash(r):
+            cls("crash")
+            disagree(dict(base, **{"class": "crash"}), f"parsing {q} crashed: {vlib.crash_desc(r)}", payload)
+            continue
+        err = r.get("err")
+        if err is not None and err["stage"] == "lex":
+            cls("lex-error")
+            disagree(dict(base, **{"class": "lex-error", "detail": err["kind"]}),
+                     f"{q} is a sequence of valid tokens {c['toks']} but the lexer reports {err['kind']} "
+                     f"at [{err['start']},{err['end']})", payload)
+            continue
+        if [tuple(t) for t in r["tokens"]] != spans or r["eof"] != [len(src), len(src)]:
+            cls("token-spans")
+            disagree(dict(base, **{"class": "token-spans"}),
+                     f"{q}: tokens {c['toks']} lie at {spans}, end of input at {len(src)}; the lexer reports "
+                     f"{r['tokens']} and {r['eof']}", payload)
+            continue
+        if err is not None:
+            # --- the diagnostic half: where does the error point? ---
+            out["n_events"] += 1
+            ev = (err["start"], err["end"], r["tokens"], len(src))
+            if not su.located(err["start"], err["end"], [tuple(t) for t in r["tokens"]], len(src)):
+                out["bad_events"].append(ev)
+                disagree(dict(base, **{"class": "diagnostic-not-at-token"}),
+                         f"{q}: the syntax error span [{err['start']},{err['end']}) is neither the span of a "
+                         f"token of the input {r['tokens']} nor the end of input", payload)
+            elif ev_rng.random() < 0.08:
+                out["events"].append(ev)
+        if d == "accept":
+            if err is not None:
+                cls("valid-rejected")
+                disagree(dict(base, **{"class": "rejects-valid", "instead": err["instead"]}),
+                         f"{q} is the {label} print of a syntax tree ({su.canon(exp['tree'], spans)}) but the "
+                         f"parser rejects it at [{err['start']},{err['end']}): instead={err['instead']} "
+                         f"expected={err['expected']}", payload)
+                continue
+            if fast_ok:
+                cls("accept-agree" if half == "trees" else "mut-accept-agree")
+                if label not in out["samples"]:
+                    out["samples"][label] = {"src": src, "case": label, "expected": "tree " + r["tree"][:300]}
+                continue
+            got = r["ast"]
+            diff = su.compare(etree, got)
+            if diff is not None and diff[0] == "tool":
+                out["tool_error"] = f"harness/spec tree format mismatch on {q}: {diff}"
+                return out
+            nest = su.nesting_fault(got)
+            if diff is not None:
+                klass = "wrong-tree" if diff[0] == "shape" else "wrong-span"
+                cls(klass)
+                disagree(dict(base, **{"class": klass, "node": etree["n"] if diff[1] == "root" else diff[1].split("/")[-1]}),
+                         f"{q} ({label} print): at {diff[1]}: {diff[2]}. specification: {su.show(etree)}; "
+                         f"parser: {su.show(got)}", payload)
+            elif nest is not None:
+                cls("span-nesting")
+                disagree(dict(base, **{"class": "span-nesting"}), f"{q}: {nest}", payload)
+            else:
+                cls("accept-agree" if half == "trees" else "mut-accept-agree")
+                if label not in out["samples"]:
+                    out["samples"][label] = {"src": src, "case": label, "expected": "tree " + su.show(etree)[:300]}
+        elif d == "reject":
+            if err is None:
+                cut = greedy_cut(r["ast"])
+                cls("invalid-accepted")
+                disagree(dict(base, **{"class": "accepts-invalid",
+                                       "cause": "greedy-form-ended-early" if cut else "other"}),
+                         f"{q} is not a sentence (the reference parser cannot get past token #{exp['at']} of "
+                         f"{c['toks']}) but the parser accepts it as {su.show(r['ast'])}"
+                         + (" - a form that must extend as far right as possible is used as a left operand/target"
+                            if cut else ""), payload)
+            else:
+                cls("reject-agree")
+                out["pos"][1] += 1
+                at = exp["at"]
+                want = tuple(spans[at - 1]) if at <= len(spans) else (len(src), len(src))
+                if (err["start"], err["end"]) == want:
+                    out["pos"][0] += 1
+                if "reject" not in out["samples"]:
+                    out["samples"]["reject"] = {"src": src, "case": label, "expected": f"syntax error at token #{at}",
+                                                "observed": f"error at [{err['start']},{err['end']})"}
+        else:   # outside the core the reference parser decides: only spans / location are checked
+            if err is None:
+                nest = su.nesting_fault(r["ast"])
+                root = r["ast"]
+                if nest is None and spans and (root["s"], root["e"]) != (spans[0][0], spans[-1][1]):
+                    nest = f"root span [{root['s']},{root['e']}) is not first token start .. last token end"
+                if nest is not None:
+                    cls("span-nesting")
+                    disagree(dict(base, **{"class": "span-nesting"}), f"{q}: {nest}", payload)
+                else:
+                    cls("undecided-accepted")
+            else:
+                cls("undecided-rejected")
+    return out
+
+
+class Merge:
+    def __init__(self, chk):
         self.chk = chk
-        self.tier = tier
-        self.seed = seed
-        self.nvar = 1 if tier == "quick" else 2
         self.classes = {}
-        self.kinds = set()
         self.styles = {}
-        self.events = []          # (es, ee, toks, len, src)
-        self.pos_match = [0, 0]   # error token = reference parser's failure token: agree, total
+        self.kinds = set()
+        self.violations = []
+        self.events = []
+        self.bad_events = []
+        self.n_events = 0
+        self.pos = [0, 0]
         self.replayed = 0
         self.samples = {}
 
-    def cls(self, name):
-        self.classes[name] = self.classes.get(name, 0) + 1
+    def add(self, o):
+        if o["tool_error"]:
+            raise vlib.ToolError(o["tool_error"])
+        for k, v in o["classes"].items():
+            self.classes[k] = self.classes.get(k, 0) + v
+        for k, v in o["styles"].items():
+            self.styles[k] = self.styles.get(k, 0) + v
+        self.kinds |= o["kinds"]
+        self.violations += o["violations"]
+        self.events += o["events"]
+        self.bad_events += o["bad_events"]
+        self.n_events += o["n_events"]
+        self.pos[0] += o["pos"][0]
+        self.pos[1] += o["pos"][1]
+        self.replayed += o["replayed"]
+        for k, v in o["samples"].items():
+            if k not in self.samples or v["src"] < self.samples[k]["src"]:
+                self.samples[k] = v
+        self.chk.evaluations += o["evaluations"]
+        self.chk.nontrivial |= o["digests"]
 
-    def variants(self, c):
-        toks, sep = c["toks"], c["sep"]
-        out = [su.layout(toks, sep, None)]
-        key = "\x1f".join(toks)
-        for v in range(self.nvar):
-            out.append(su.layout(toks, sep, vlib.rng(self.seed, f"c15:{v}:{key}")))
-        seen = set()
-        for text, spans in out:
-            if text not in seen:
-                seen.add(text)
-                yield text, spans
 
-    def process(self, spec_cases):
-        chk = self.chk
-        cases, meta = [], []
-        for c in spec_cases:
-            label = c.get("st") or c.get("kind")
-            c["half"] = "trees" if label in ("min", "red", "unparen") else "mut"
-            self.styles[label] = self.styles.get(label, 0) + 1
-            if c["exp"]["d"] == "accept":
-                su.kinds_of(c["exp"]["tree"], self.kinds)
-                c["nontrivial"] = su.depth(c["exp"]["tree"]) >= 3
-            else:
-                c["nontrivial"] = len(c["toks"]) >= 2
-            full = label not in ("min", "red")   # printed trees: canonical text (fast path); else structured tree
-            for text, spans in self.variants(c):
-                cases.append({"k": "parse", "src": text, "full": full})
-                meta.append((c, spans, label))
-        if not cases:
-            return
-        t0 = time.time()
-        results = run_cases(cases, "c15", timeout_ms=10000)
-        vlib.log(f"[C15] parsed {len(cases)} texts of {len(spec_cases)} cases in {time.time() - t0:.1f}s")
-        self.replayed += len(cases)
-        # fast path: the canonical text of the parser's tree equals the specification's
-        redo = []
-        for i, (case, (c, spans, label), r) in enumerate(zip(cases, meta, results)):
-            if "tree" in r and r["tree"] != su.canon(c["exp"]["tree"], spans):
-                redo.append(i)
-        if redo:
-            again = run_cases([dict(cases[i], full=True) for i in redo], "c15_full", timeout_ms=10000)
-            for i, r in zip(redo, again):
-                results[i] = r
-        flip = os.environ.get("VERIF_C15_FLIP")
-        for case, (c, spans, label), r in zip(cases, meta, results):
-            src = case["src"]
-            q = json.dumps(src)
-            exp = c["exp"]
-            d = exp["d"]
-            half = c["half"]
-            fast_ok = "tree" in r
-            etree = su.expected_tree(exp["tree"], spans) if d == "accept" and not fast_ok else None
-            if flip and d == "accept" and label == "min" and exp["tree"]["c"]:
-                etree = su.expected_tree(exp["tree"], spans)
-                etree["e"] += 1          # binding demonstration: falsify one expected span
-                r = run_cases([dict(case, full=True)], "c15_full", timeout_ms=10000)[0]
-                fast_ok = False
-                flip = None
-            chk.count(key=src, nontrivial=c["nontrivial"])
-            payload = {"k": "parse", "src": src, "half": half, "case": label, "expected": d,
-                       "expected_tree": su.canon(exp["tree"], spans) if d == "accept" else None,
-                       "reject_at_token": exp.get("at")}
-            base = {"kind": "syntax", "half": half, "case": label}
-            if vlib.is_crash(r):
-                self.cls("crash")
-                chk.disagree(dict(base, **{"class": "crash"}), f"parsing {q} crashed: {vlib.crash_desc(r)}", payload)
-                continue
-            err = r.get("err")
-            if err is not None and err["stage"] == "lex":
-                self.cls("lex-error")
-                chk.disagree(dict(base, **{"class": "lex-error", "detail": err["kind"]}),
-                             f"{q} is a sequence of valid tokens {c['toks']} but the lexer reports {err['kind']} "
-                             f"at [{err['start']},{err['end']})", payload)
-                continue
-            if [tuple(t) for t in r["tokens"]] != spans or r["eof"] != [len(src), len(src)]:
-                self.cls("token-spans")
-                chk.disagree(dict(base, **{"class": "token-spans"}),
-                             f"{q}: tokens {c['toks']} lie at {spans}, end of input at {len(src)}; the lexer reports "
-                             f"{r['tokens']} and {r['eof']}", payload)
-                continue
-            if err is not None:
-                # --- the diagnostic half: where does the error point? ---
-                self.events.append((err["start"], err["end"], r["tokens"], len(src), src))
-                if not su.located(err["start"], err["end"], [tuple(t) for t in r["tokens"]], len(src)):
-                    chk.disagree(dict(base, **{"class": "diagnostic-not-at-token"}),
-                                 f"{q}: the syntax error span [{err['start']},{err['end']}) is neither the span of a "
-                                 f"token of the input {r['tokens']} nor the end of input", payload)
-            if d == "accept":
-                if err is not None:
-                    self.cls("valid-rejected")
-                    chk.disagree(dict(base, **{"class": "rejects-valid", "instead": err["instead"]}),
-                                 f"{q} is the {label} print of a syntax tree ({su.canon(exp['tree'], spans)}) but the "
-                                 f"parser rejects it at [{err['start']},{err['end']}): instead={err['instead']} "
-                                 f"expected={err['expected']}", payload)
+def stream(res, mg, tier, seed):
+    nvar = 1
+    flip = bool(os.environ.get("VERIF_C15_FLIP"))
+    t0 = time.time()
+    with concurrent.futures.ProcessPoolExecutor(max_workers=PROCS) as ex:
+        pending = []
+        wid = 0
+
+        def drain(limit):
+            while len(pending) > limit:
+                done, _ = concurrent.futures.wait(pending, return_when=concurrent.futures.FIRST_COMPLETED)
+                for f in done:
+                    pending.remove(f)
+                    mg.add(f.result())
+
+        chunk = []
+        with open(res.out_path, "r", errors="replace") as f:
+            for line in f:
+                if not line.startswith(PREFIX):
                     continue
-                if fast_ok:
-                    self.cls("accept-agree" if half == "trees" else "mut-accept-agree")
-                    if label not in self.samples:
-                        self.samples[label] = {"src": src, "case": label, "expected": "tree " + r["tree"][:300]}
-                    continue
-                got = r["ast"]
-                diff = su.compare(etree, got)
-                if diff is not None and diff[0] == "tool":
-                    raise vlib.ToolError(f"harness/spec tree format mismatch on {q}: {diff}")
-                nest = su.nesting_fault(got)
-                if diff is not None:
-                    klass = "wrong-tree" if diff[0] == "shape" else "wrong-span"
-                    self.cls(klass)
-                    chk.disagree(dict(base, **{"class": klass, "node": etree["n"] if diff[1] == "root" else diff[1].split("/")[-1]}),
-                                 f"{q} ({label} print): at {diff[1]}: {diff[2]}. specification: {su.show(etree)}; "
-                                 f"parser: {su.show(got)}", payload)
-                elif nest is not None:
-                    self.cls("span-nesting")
-                    chk.disagree(dict(base, **{"class": "span-nesting"}), f"{q}: {nest}", payload)
-                else:
-                    self.cls("accept-agree" if half == "trees" else "mut-accept-agree")
-                    if label not in self.samples:
-                        self.samples[label] = {"src": src, "case": label, "expected": "tree " + su.show(etree)[:300]}
-            elif d == "reject":
-                if err is None:
-                    cut = greedy_cut(r["ast"])
-                    self.cls("invalid-accepted")
-                    chk.disagree(dict(base, **{"class": "accepts-invalid",
-                                               "cause": "greedy-form-ended-early" if cut else "other"}),
-                                 f"{q} is not a sentence (the reference parser cannot get past token #{exp['at']} of "
-                                 f"{c['toks']}) but the parser accepts it as {su.show(r['ast'])}"
-                                 + (" - a form that must extend as far right as possible is used as a left operand/target"
-                                    if cut else ""), payload)
-                else:
-                    self.cls("reject-agree")
-                    self.pos_match[1] += 1
-                    at = exp["at"]
-                    want = tuple(spans[at - 1]) if at <= len(spans) else (len(src), len(src))
-                    if (err["start"], err["end"]) == want:
-                        self.pos_match[0] += 1
-                    if "reject" not in self.samples:
-                        self.samples["reject"] = {"src": src, "case": label, "expected": f"syntax error at token #{at}",
-                                                  "observed": f"error at [{err['start']},{err['end']})"}
-            else:   # outside the core the reference parser decides: only spans / location are checked
-                if err is None:
-                    nest = su.nesting_fault(r["ast"])
-                    root = r["ast"]
-                    if nest is None and spans and (root["s"], root["e"]) != (spans[0][0], spans[-1][1]):
-                        nest = f"root span [{root['s']},{root['e']}) is not first token start .. last token end"
-                    if nest is not None:
-                        self.cls("span-nesting")
-                        chk.disagree(dict(base, **{"class": "span-nesting"}), f"{q}: {nest}", payload)
-                    else:
-                        self.cls("undecided-accepted")
-                else:
-                    self.cls("undecided-rejected")
+                chunk.append(line)
+                if len(chunk) >= CHUNK:
+                    pending.append(ex.submit(work, chunk, seed, nvar, wid, flip and wid == 0))
+                    wid += 1
+                    chunk = []
+                    drain(2 * PROCS - 1)
+        if chunk:
+            pending.append(ex.submit(work, chunk, seed, nvar, wid, flip and wid == 0))
+        drain(0)
+    for w in range(wid + 1):
+        for suffix in ("", "f"):
+            shutil.rmtree(os.path.join(vlib.WORK, "cases", f"c15_w{w}{suffix}"), ignore_errors=True)
+    vlib.log(f"[C15] parsed and compared {mg.replayed} texts in {time.time() - t0:.0f}s")
 
-    def stream(self, res):
-        batch = []
-        for c in res.lines("CASE"):
-            batch.append(c)
-            if len(batch) >= BATCH:
-                self.process(batch)
-                batch = []
-        self.process(batch)
 
-    def validate_diagnostics(self):
-        """Trace_Diag on a seeded sample of the recorded events; TLC and Python must agree."""
-        chk = self.chk
-        ev = self.events
-        if not ev:
+def validate_diagnostics(chk, mg, tier, seed):
+    """Trace_Diag on a seeded sample of the recorded events; TLC and Python must agree."""
+    r = vlib.rng(seed, "c15-diag")
+    k = 400 if tier == "quick" else 3000
+    good = sorted(mg.events, key=lambda e: json.dumps(e))
+    good = r.sample(good, min(k, len(good)))
+    bad = sorted(mg.bad_events, key=lambda e: json.dumps(e))[:10]
+    evs = good + bad
+    r.shuffle(evs)
+    if not evs:
+        return
+    isbad = [not su.located(e[0], e[1], [tuple(t) for t in e[2]], e[3]) for e in evs]
+    d_ = vlib.workdir("traces")
+    start = 0
+    for rnd in range(12):
+        path = os.path.join(d_, f"c15_diag_{rnd}.ndjson")
+        with open(path, "w") as f:
+            for e in evs[start:]:
+                f.write(json.dumps({"es": e[0], "ee": e[1], "toks": e[2], "len": e[3]}) + "\n")
+        res = run_tlc("Trace_Diag", "Trace_Diag.cfg", f"c15_diag_{rnd}", workers=1, env={"TRACE": path},
+                      timeout=900, deque=True, coverage=False, heap="2g")
+        chk.add_tlc(res, f"Trace_Diag round {rnd + 1} ({len(evs) - start} error events)")
+        py_first = next((j for j in range(start, len(evs)) if isbad[j]), None)
+        if res.rc == 0 and not res.error:
+            if py_first is not None:
+                raise vlib.ToolError(f"Trace_Diag accepts event {py_first - start + 1} that the Python evaluation rejects: {path}")
+            chk.extra["diag_events_validated_by_tlc"] = chk.extra.get("diag_events_validated_by_tlc", 0) + len(evs) - start
             return
-        r = vlib.rng(self.seed, "c15-diag")
-        k = 400 if self.tier == "quick" else 3000
-        bad = [i for i, e in enumerate(ev) if not su.located(e[0], e[1], [tuple(t) for t in e[2]], e[3])]
-        idx = sorted(set(r.sample(range(len(ev)), min(k, len(ev)))) | set(bad[:10]))
-        d_ = vlib.workdir("traces")
-        for rnd in range(12):
-            path = os.path.join(d_, f"c15_diag_{rnd}.ndjson")
-            with open(path, "w") as f:
-                for i in idx:
-                    e = ev[i]
-                    f.write(json.dumps({"es": e[0], "ee": e[1], "toks": e[2], "len": e[3]}) + "\n")
-            res = run_tlc("Trace_Diag", "Trace_Diag.cfg", f"c15_diag_{rnd}", workers=1, env={"TRACE": path},
-                          timeout=900, deque=True, coverage=False, heap="2g")
-            chk.add_tlc(res, f"Trace_Diag round {rnd + 1} ({len(idx)} error events)")
-            py_first = next((j for j, i in enumerate(idx) if i in set(bad)), None)
-            if res.rc == 0 and not res.error:
-                if py_first is not None:
-                    raise vlib.ToolError(f"Trace_Diag accepts event {py_first + 1} that the Python evaluation rejects: {path}")
-                chk.extra["diag_events_validated_by_tlc"] = chk.extra.get("diag_events_validated_by_tlc", 0) + len(idx)
-                return
-            pos = None
-            with open(res.out_path, errors="replace") as f:
-                for line in f:
-                    if line.startswith('<<"REJECT"'):
-                        pos = int(line.split(",")[1].strip())
-            if pos is None:
-                raise vlib.ToolError(f"Trace_Diag failed without REJECT: {res.out_path} {res.error}")
-            if py_first is None or py_first + 1 != pos:
-                raise vlib.ToolError(f"Trace_Diag rejects event {pos}, the Python evaluation rejects "
-                                     f"{None if py_first is None else py_first + 1}: {path}")
-            chk.extra["diag_events_validated_by_tlc"] = chk.extra.get("diag_events_validated_by_tlc", 0) + pos
-            idx = idx[pos:]          # the violation itself was already reported by process()
-            if not idx:
-                return
+        pos = None
+        with open(res.out_path, errors="replace") as f:
+            for line in f:
+                if line.startswith('<<"REJECT"'):
+                    pos = int(line.split(",")[1].strip())
+        if pos is None:
+            raise vlib.ToolError(f"Trace_Diag failed without REJECT: {res.out_path} {res.error}")
+        if py_first is None or py_first - start + 1 != pos:
+            raise vlib.ToolError(f"Trace_Diag rejects event {pos}, the Python evaluation rejects "
+                                 f"{None if py_first is None else py_first - start + 1}: {path}")
+        chk.extra["diag_events_validated_by_tlc"] = chk.extra.get("diag_events_validated_by_tlc", 0) + pos
+        start += pos          # the violation itself was already reported by work()
+        if start >= len(evs):
+            return
 
 
 def run(tier, seed):
     chk = Check(PROP, tier, seed)
-    chk.rule = ("trees of spec/MC_Syntax.tla (all ordered pairs of the 19 binary operators + `in super` in both nestings, "
+    chk.rule = ("trees of spec/MC_Syntax.tla (all ordered pairs of the 19 binary operators + 'in super' in both nestings, "
                 "triples in the five shapes, unary x binary x postfix in every nesting order, one-hole contexts x contexts x "
                 "fillers, postfix chains over all slice colon layouts / call forms, object bodies, comprehensions, binders) "
-                "printed with minimal and with redundant parentheses, and the minimal texts with one token deleted / "
-                "duplicated / swapped / one required parenthesis pair removed; each text laid out canonically and with "
-                "seeded separators; distinct = source text; non-trivial = the expected tree has depth >= 3 "
-                "(mutants: at least two tokens)")
+                "printed with minimal and with redundant parentheses; every core text with one pair of parentheses removed; "
+                "for a seeded sample of the trees the minimal text with one token deleted / duplicated / swapped; each "
+                "token sequence laid out with single spaces and with seeded separators; distinct = source text; "
+                "non-trivial = the expected tree has depth >= 3 (rejected / undecided sequences: at least two tokens)")
     chk.assumptions = [
         "the token sequences are turned into text by lib/syntax_util.layout; NeedsSeparator of Syntax.tla is "
         "conservative (may demand a separator that is not strictly needed, never the converse)",
@@ -286,33 +362,34 @@ def run(tier, seed):
         "error location only",
     ]
     vlib.build_harness()
-    run_ = Run(chk, tier, seed)
-    to = 3000
-    res = run_tlc("MC_Syntax", f"MC_Syntax_{tier}.cfg", "c15_trees", workers=8, seed=seed, timeout=to, coverage=False)
+    res = run_tlc("MC_Syntax", f"MC_Syntax_{tier}.cfg", "c15_trees", workers=8, seed=seed, timeout=3000, coverage=False)
     tlc_must_pass(res, "Syntax laws / emission")
     chk.add_tlc(res, "laws on every tree and on the mutants of a seeded sample + case emission")
     ntrees = res.distinct // 2
     vlib.log(f"[C15] TLC: {ntrees} trees in {res.wall:.0f}s")
-    run_.stream(res)
-    run_.validate_diagnostics()
+    mg = Merge(chk)
+    stream(res, mg, tier, seed)
+    for sig, what, payload in sorted(mg.violations, key=lambda v: (json.dumps(v[0], sort_keys=True), len(v[2]["src"]), v[2]["src"])):
+        chk.disagree(sig, what, payload)
+    validate_diagnostics(chk, mg, tier, seed)
 
-    missing = su.ALL_KINDS - run_.kinds
+    missing = su.ALL_KINDS - mg.kinds
     if missing:
         raise vlib.ToolError(f"vacuity: node kinds never produced by the universe: {sorted(missing)}")
-    cl = run_.classes
+    cl = mg.classes
     for need in ("accept-agree", "reject-agree", "mut-accept-agree", "undecided-accepted", "undecided-rejected"):
         if cl.get(need, 0) == 0 and not chk.violations:
             raise vlib.ToolError(f"vacuity: outcome class {need} is empty: {cl}")
-    chk.extra["outcome_classes"] = cl
-    chk.extra["cases_by_style_or_mutation"] = run_.styles
+    chk.extra["outcome_classes"] = dict(sorted(cl.items()))
+    chk.extra["cases_by_style_or_mutation"] = dict(sorted(mg.styles.items()))
     chk.extra["trees"] = ntrees
-    chk.extra["syntax_error_events"] = len(run_.events)
-    chk.extra["error_token_equals_reference_failure_token"] = {"agree": run_.pos_match[0], "of": run_.pos_match[1]}
-    chk.extra["node_kinds_covered"] = len(run_.kinds)
-    chk.traces_validated = run_.replayed
+    chk.extra["syntax_error_events"] = mg.n_events
+    chk.extra["error_token_equals_reference_failure_token"] = {"agree": mg.pos[0], "of": mg.pos[1]}
+    chk.extra["node_kinds_covered"] = len(mg.kinds)
+    chk.traces_validated = mg.replayed
     chk.exhaustive = False     # depth-2 contexts / chains are sampled in quick, depth 3 in thorough
-    for s in list(run_.samples.values())[:6]:
-        chk.sample(s)
+    for k in sorted(mg.samples)[:6]:
+        chk.sample(mg.samples[k])
     return chk.finish()
 
 
@@ -320,7 +397,7 @@ def replay(path):
     with open(path) as f:
         rp = json.load(f)
     vlib.build_harness()
-    case = {"k": "parse", "src": rp["case"]["src"]}
+    case = {"k": "parse", "src": rp["case"]["src"], "full": True}
     r = run_cases([case], "c15_replay")[0]
     out = {"src": case["src"], "expected": rp["case"].get("expected"), "expected_tree": rp["case"].get("expected_tree"),
            "reject_at_token": rp["case"].get("reject_at_token")}
